@@ -12,6 +12,7 @@ import (
 	"io"
 	"net"
 	"sort"
+	"sync/atomic"
 	"testing"
 	"testing/synctest"
 	"time"
@@ -50,6 +51,7 @@ type c13Stim struct {
 	Kind string `json:"kind"`           // deadline | clear | data | open | close | sockerr | connect
 	Arg  int    `json:"arg,omitempty"`  // deadline: absolute ms (may be in the past); data: number of messages
 	One  bool   `json:"one_datagram,omitempty"`
+	Rec  bool   `json:"through_fec_recovery,omitempty"` // data: the datagram of the first message is lost, the group's parity arrives
 }
 
 type c13Script struct {
@@ -60,6 +62,7 @@ type c13Script struct {
 	Stims   []c13Stim `json:"stimuli"`
 	Link    linkCfg   `json:"link"`
 	API     string    `json:"deadline_api"` // SetReadDeadline/SetWriteDeadline or SetDeadline
+	ReadBuf int       `json:"read_buffer,omitempty"` // read: size of every caller's buffer (messages are 3 bytes)
 }
 
 const c13Delay = 5 // one-way network delay (ms)
@@ -75,9 +78,13 @@ func genC13Script(rng *vrng, idx int64, op string) c13Script {
 	if rng.chance(0.4) {
 		sc.PreDL = rng.between(20, 400)
 	}
+	if op == "read" {
+		sc.ReadBuf = pick(rng, []int{4096, 4096, 4096, 1, 2})
+	}
 	t := 0
 	n := rng.between(1, 5)
 	final := pick(rng, []string{"close", "close", "sockerr", "data", "deadline"})
+	recUsed := false
 	for i := 0; i < n; i++ {
 		t += pick(rng, []int{0, 1, 2, rng.between(3, 150)})
 		kinds := []string{"deadline", "deadline", "clear", "data"}
@@ -96,6 +103,12 @@ func genC13Script(rng *vrng, idx int64, op string) c13Script {
 		case "data":
 			st.Arg = rng.between(1, 4)
 			st.One = rng.chance(0.5)
+			if sc.Link.D > 0 && !recUsed && rng.chance(0.5) {
+				// two messages in two datagrams of one FEC group; the first datagram is
+				// lost and its message reaches the receiver only through the parity
+				st.Arg, st.One, st.Rec = 2, false, true
+				recUsed = true
+			}
 		}
 		sc.Stims = append(sc.Stims, st)
 	}
@@ -216,7 +229,7 @@ func runC13(t *testing.T, rec *vrec, sc *c13Script, rng *vrng) {
 				server.SetReadDeadline(tm)
 			}
 		}
-		call = func() (int, error) { return server.Read(make([]byte, 4096)) }
+		call = func() (int, error) { return server.Read(make([]byte, sc.ReadBuf)) }
 	case "write":
 		// cut the ACK path and fill the client's send window
 		w.hub.setFate(func(from, to string, nth int, now int64, data []byte) []int {
@@ -265,6 +278,24 @@ func runC13(t *testing.T, rec *vrec, sc *c13Script, rng *vrng) {
 		}
 	}
 
+	// read units one 3-byte message provides (a caller's buffer may be smaller)
+	perMsg := 1
+	if sc.Op == "read" && sc.ReadBuf < 3 {
+		perMsg = (3 + sc.ReadBuf - 1) / sc.ReadBuf
+	}
+	// on demand, the next datagram from the client is lost (the client is silent
+	// unless the script makes it write, and the server sends no data it would
+	// have to acknowledge: that datagram is the first message's data packet)
+	var dropOne atomic.Bool
+	if sc.Op == "read" && client != nil {
+		claddr := cconn.addr.String()
+		w.hub.setFate(func(from, to string, nth int, now int64, data []byte) []int {
+			if from == claddr && dropOne.CompareAndSwap(true, false) {
+				return nil
+			}
+			return []int{c13Delay}
+		})
+	}
 	t0 := time.Now()
 	at := func(ms int) time.Time { return t0.Add(time.Duration(ms) * time.Millisecond) }
 	// model state
@@ -426,11 +457,52 @@ func runC13(t *testing.T, rec *vrec, sc *c13Script, rng *vrng) {
 			noneReturned("deadline cleared")
 		case "data", "connect":
 			units := st.Arg
+			if st.Kind == "data" && st.Rec {
+				// the two datagrams must be the two data packets of one group: bring
+				// the client's encoder to a group boundary first (an ordinary
+				// message, delivered and claimed like any other)
+				client.mu.Lock()
+				odd := client.fecEncoder != nil && client.fecEncoder.shardCount%2 == 1
+				client.mu.Unlock()
+				if odd {
+					client.Write([]byte{9, 1, 2})
+					arrive := now + c13Delay
+					if dl != 0 && dl-1 >= now && dl-1 <= arrive+1 {
+						// an expiry around this extra arrival: not judged
+						time.Sleep(time.Until(at(arrive + 2)))
+						synctest.Wait()
+						now = arrive + 2
+						for _, c := range callers {
+							if !accounted[c.id] && returned(c) {
+								accounted[c.id] = true
+							}
+						}
+						rec.count("c13_ambiguous_ties_not_judged", 1)
+						avail = 0
+						break
+					}
+					advance(arrive)
+					nb := pendingN()
+					expect(min(nb, perMsg+avail), "data", now, "data arrival")
+					avail = max(0, perMsg+avail-nb)
+					if dl != 0 && dl-1 >= now && dl-1 <= now+3 {
+						advance(now + 4)
+					} else {
+						advance(now + 2)
+					}
+					if pendingN() == 0 {
+						break
+					}
+				}
+				dropOne.Store(true)
+			}
 			if st.Kind == "data" {
+				msgs := units
+				units *= perMsg
 				if st.One {
 					// several messages in one datagram: queue them with write delay on
 					client.SetWriteDelay(true)
-					for i := 0; i < units; i++ {
+					for i := 0; i < msgs; i++ {
 						client.Write([]byte{byte(i), 1, 2})
 					}
 					client.SetWriteDelay(false)
@@ -438,7 +510,7 @@ func runC13(t *testing.T, rec *vrec, sc *c13Script, rng *vrng) {
 					client.kcp.flush(IKCP_FLUSH_FULL)
 					client.mu.Unlock()
 				} else {
-					for i := 0; i < units; i++ {
+					for i := 0; i < msgs; i++ {
 						client.Write([]byte{byte(i), 1, 2})
 					}
 				}
@@ -472,10 +544,16 @@ func runC13(t *testing.T, rec *vrec, sc *c13Script, rng *vrng) {
 			if st.Kind == "data" {
 				// nothing readable may be left while someone waits
 				server.mu.Lock()
-				peek := server.kcp.PeekSize()
+				peek, rest := server.kcp.PeekSize(), len(server.bufptr)
 				server.mu.Unlock()
-				if peek > 0 && len(blocked()) > 0 {
-					viol("C13 read: readable data left unclaimed while a reader is blocked", "%d reader(s) still blocked with a %d-byte message readable (%s)", len(blocked()), peek, describeCallers(callers))
+				if (peek > 0 || rest > 0) && len(blocked()) > 0 {
+					viol("C13 read: readable data left unclaimed while a reader is blocked", "%d reader(s) still blocked with a %d-byte message readable and %d bytes of a partly read one (%s)", len(blocked()), peek, rest, describeCallers(callers))
+				}
+				if st.Rec {
+					rec.count("c13_data_through_fec_recovery", 1)
+					if dropOne.Load() {
+						viol("C13 harness: the datagram to be lost was never seen", "%s", describeCallers(callers))
+					}
 				}
 			}
 		case "open":
@@ -615,7 +693,7 @@ func describeCallers(cs []*c13Caller) string {
 	for _, c := range cs {
 		select {
 		case <-c.done:
-			parts = append(parts, fmt.Sprintf("#%d %s@%.3fms", c.id, c.class, float64(c.end)/1e6))
+			parts = append(parts, fmt.Sprintf("#%d %s(n=%d)@%.3fms", c.id, c.class, c.n, float64(c.end)/1e6))
 		default:
 			parts = append(parts, fmt.Sprintf("#%d blocked", c.id))
 		}
